@@ -5,9 +5,9 @@
 
     Both are hand-written after caldav/elements.go + caldav/server.go and each
     is tied to the Go code by its own correspondence check; this file relates
-    them for EVERY report body tree, up to the one point where they differ:
-    ServerTotal models encoding/xml's nesting limit (errUnmarshalDepth at
-    10000), CalWire does not ([models_differ_beyond_depth_limit]). *)
+    them for EVERY report body tree, encoding/xml's nesting limit
+    (errUnmarshalDepth at 10000) included: both models charge the same depth
+    at the same places. *)
 From Coq Require Import Permutation.
 From GW Require Import Base CalTime CalTimeProofs CalXml CalWire CalWireLex CalWireServer.
 From GW Require ServerTotal CalWireVariant.
@@ -132,33 +132,14 @@ Proof.
   - apply E_other_inv in HE. subst. exact IH.
 Qed.
 
-(** * Heights and the nesting limit *)
-Fixpoint height (t : ST.xtree) : N :=
-  match t with
-  | ST.XElem _ _ _ kids => 1 + fold_right (fun k m => N.max (height k) m) 0%N kids
-  | _ => 0
-  end.
+(** * The nesting limit: the same test in both models *)
+Lemma chk0 {A} (x : option A) : ST.chk 0 x = x.
+Proof. reflexivity. Qed.
 
-Definition fits (d : N) (t : ST.xtree) : Prop := (d + 2 * height t <= ST.MAXD)%N.
-
-Lemma height_kid ns l attrs kids k : In k kids -> (height k + 1 <= height (ST.XElem ns l attrs kids))%N.
-Proof.
-  cbn [height]. induction kids as [|x r IH]; cbn [In fold_right]; [tauto |]. intros [->|H]; [lia |].
-  specialize (IH H). lia.
-Qed.
-
-Lemma fits_kid d ns l attrs kids k :
-  fits d (ST.XElem ns l attrs kids) -> In k kids -> fits (d + 2) k.
-Proof. unfold fits. intros H Hin. pose proof (height_kid ns l attrs kids k Hin). lia. Qed.
-
-Lemma fits_lt d ns l attrs kids : fits d (ST.XElem ns l attrs kids) -> (d + 2 <= ST.MAXD)%N.
-Proof. unfold fits. cbn [height]. lia. Qed.
-
-Lemma fits_mono d d' t : fits d t -> (d' <= d)%N -> fits d' t.
-Proof. unfold fits. lia. Qed.
-
-Lemma chk_ok {A} d (x : option A) : (d < ST.MAXD)%N -> ST.chk d x = x.
-Proof. unfold ST.chk. intros H. apply N.leb_gt in H. now rewrite H. Qed.
+Ltac leb_case :=
+  unfold ST.chk, chk; change ST.MAXD with MAXD;
+  match goal with |- context [N.leb MAXD ?e] => destruct (N.leb MAXD e); [reflexivity |] end.
+Ltac flag_step := unfold ST.into_flag, flag_at; leb_case.
 
 (** * Simulation *)
 Definition sim {A B} (R : A -> B -> Prop) (o : option A) (r : res B) : Prop :=
@@ -256,11 +237,11 @@ Ltac elem_case t HE :=
 
 (** time-range *)
 Lemma sim_tr d acc acc' T t :
-  E T t -> fits d t -> R_tr acc acc' -> sim R_tr (ST.um_time_range d acc t) (u_time_range acc' T).
+  E T t -> R_tr acc acc' -> sim R_tr (ST.um_time_range d acc t) (u_time_range d acc' T).
 Proof.
-  intros HE Hfit HR. elem_case t HE.
+  intros HE HR. elem_case t HE.
   unfold ST.um_time_range, ST.um_struct, u_time_range.
-  rewrite chk_ok by (apply fits_lt in Hfit; lia). rewrite name_ok_eq by reflexivity.
+  leb_case. rewrite name_ok_eq by reflexivity.
   change (ST.NS_CAL, "time-range") with (cn "time-range").
   destruct (name_eqb (ns, l) (cn "time-range")); cbn [negb]; [|reflexivity].
   match goal with |- context [ST.fold_opt ?fa attrs acc] =>
@@ -283,11 +264,11 @@ Qed.
 
 (** expand *)
 Lemma sim_ex d acc acc' T t :
-  E T t -> fits d t -> R_ex acc acc' -> sim R_ex (ST.um_expand d acc t) (u_expand acc' T).
+  E T t -> R_ex acc acc' -> sim R_ex (ST.um_expand d acc t) (u_expand d acc' T).
 Proof.
-  intros HE Hfit HR. elem_case t HE.
+  intros HE HR. elem_case t HE.
   unfold ST.um_expand, ST.um_struct, u_expand.
-  rewrite chk_ok by (apply fits_lt in Hfit; lia). rewrite name_ok_eq by reflexivity.
+  leb_case. rewrite name_ok_eq by reflexivity.
   change (ST.NS_CAL, "expand") with (cn "expand").
   destruct (name_eqb (ns, l) (cn "expand")); cbn [negb]; [|reflexivity].
   match goal with |- context [ST.fold_opt ?fa attrs acc] =>
@@ -310,12 +291,12 @@ Qed.
 
 (** text-match (CalDAV: no match-type attribute) *)
 Lemma sim_tm d acc acc' T t :
-  E T t -> fits d t -> R_tm acc acc' ->
-  sim R_tm (ST.um_text_match false ST.NS_CAL d acc t) (u_text_match acc' T).
+  E T t -> R_tm acc acc' ->
+  sim R_tm (ST.um_text_match false ST.NS_CAL d acc t) (u_text_match d acc' T).
 Proof.
-  intros HE Hfit HR. elem_case t HE.
+  intros HE HR. elem_case t HE.
   unfold ST.um_text_match, ST.um_struct, u_text_match.
-  rewrite chk_ok by (apply fits_lt in Hfit; lia). rewrite name_ok_eq by reflexivity.
+  leb_case. rewrite name_ok_eq by reflexivity.
   change (ST.NS_CAL, "text-match") with (cn "text-match").
   destruct (name_eqb (ns, l) (cn "text-match")); cbn [negb]; [|reflexivity].
   match goal with |- context [ST.fold_opt ?fa attrs acc] =>
@@ -354,13 +335,12 @@ Ltac kid_case t HE :=
 
 (** param-filter *)
 Lemma sim_paf d acc acc' T t :
-  E T t -> fits d t -> R_paf acc acc' ->
-  sim R_paf (ST.um_param_filter false ST.NS_CAL d acc t) (u_param_filter acc' T).
+  E T t -> R_paf acc acc' ->
+  sim R_paf (ST.um_param_filter false ST.NS_CAL d acc t) (u_param_filter d acc' T).
 Proof.
-  intros HE Hfit HR. elem_case t HE.
+  intros HE HR. elem_case t HE.
   unfold ST.um_param_filter, ST.um_struct, u_param_filter.
-  pose proof (fits_lt _ _ _ _ _ Hfit) as Hlt.
-  rewrite chk_ok by lia. rewrite name_ok_eq by reflexivity.
+  leb_case. rewrite name_ok_eq by reflexivity.
   change (ST.NS_CAL, "param-filter") with (cn "param-filter").
   destruct (name_eqb (ns, l) (cn "param-filter")); cbn [negb]; [|reflexivity].
   match goal with |- context [ST.fold_opt ?fa attrs acc] =>
@@ -371,7 +351,7 @@ Proof.
   destruct (ST.fold_opt _ attrs acc) as [a1|], (fold_attrs paf_set a acc') as [a1'| |]; cbn in Ha; try contradiction;
     [|exact Ha].
   match goal with |- context [ST.fold_opt ?fk kids a1] =>
-    pose proof (sim_kids R_paf fk paf_kid kids) as Hks end.
+    pose proof (sim_kids R_paf fk (paf_kid d) kids) as Hks end.
   assert (Hstep : forall acc acc' T t, In t kids -> E T t -> R_paf acc acc' ->
             sim R_paf ((fun acc0 k0 =>
               if ST.kid_local k0 "is-not-defined" then
@@ -382,22 +362,21 @@ Proof.
                 match ST.into_ptr (ST.um_text_match false ST.NS_CAL) ST.text_match_zero d (ST.paf_tm acc0) k0 with
                 | Some v => Some {| ST.paf_name := ST.paf_name acc0; ST.paf_ind := ST.paf_ind acc0; ST.paf_tm := v |}
                 | None => None end
-              else Some acc0) acc t) (paf_kid acc' T)).
-  { clear - Hfit Hlt. intros acc acc' T t Hin HE (H1 & H2 & H3). cbv beta.
-    pose proof (fits_kid _ _ _ _ _ _ Hfit Hin) as Hfk.
+              else Some acc0) acc t) (paf_kid d acc' T)).
+  { clear. intros acc acc' T t Hin HE (H1 & H2 & H3). cbv beta.
     kid_case t HE; try (repeat split; assumption).
     cbn [ST.kid_local paf_kid]. change (local_is (ns', l') ?x) with (String.eqb l' x).
     destruct (String.eqb l' "is-not-defined").
-    { unfold ST.into_flag. rewrite chk_ok by lia. repeat split; assumption. }
+    { flag_step. repeat split; assumption. }
     destruct (String.eqb l' "text-match"); [|repeat split; assumption].
     unfold ST.into_ptr.
-    pose proof (sim_tm (d + 1) _ _ _ _ HE (fits_mono (d + 2) (d + 1) _ Hfk ltac:(lia))
+    pose proof (sim_tm (d + 1) _ _ _ _ HE
                        (R_opt_default R_tm _ _ _ _ R_tm_zero H3)) as Hs.
     destruct (ST.um_text_match _ _ _ _ _), (u_text_match _ _); cbn in Hs; try contradiction.
     - split; [assumption | split; [assumption | exact Hs]].
     - exact Hs. }
   specialize (Hks Hstep k a1 a1' Hk Ha).
-  destruct (ST.fold_opt _ kids a1), (fold_res paf_kid k a1'); cbn in Hks; try contradiction; exact Hks.
+  destruct (ST.fold_opt _ kids a1), (fold_res (paf_kid d) k a1'); cbn in Hks; try contradiction; exact Hks.
 Qed.
 
 Lemma R_paf_zero : R_paf ST.param_filter_zero zero_wpaf.
@@ -408,13 +387,12 @@ Proof. intros. apply Forall2_app; auto. Qed.
 
 (** prop-filter *)
 Lemma sim_pf d acc acc' T t :
-  E T t -> fits d t -> R_pf acc acc' ->
-  sim R_pf (ST.um_cprop_filter d acc t) (u_prop_filter acc' T).
+  E T t -> R_pf acc acc' ->
+  sim R_pf (ST.um_cprop_filter d acc t) (u_prop_filter d acc' T).
 Proof.
-  intros HE Hfit HR. elem_case t HE.
+  intros HE HR. elem_case t HE.
   unfold ST.um_cprop_filter, ST.um_struct, u_prop_filter.
-  pose proof (fits_lt _ _ _ _ _ Hfit) as Hlt.
-  rewrite chk_ok by lia. rewrite name_ok_eq by reflexivity.
+  leb_case. rewrite name_ok_eq by reflexivity.
   change (ST.NS_CAL, "prop-filter") with (cn "prop-filter").
   destruct (name_eqb (ns, l) (cn "prop-filter")); cbn [negb]; [|reflexivity].
   match goal with |- context [ST.fold_opt ?fa attrs acc] =>
@@ -425,35 +403,34 @@ Proof.
   destruct (ST.fold_opt _ attrs acc) as [a1|], (fold_attrs pf_set a acc') as [a1'| |]; cbn in Ha; try contradiction;
     [|exact Ha].
   match goal with |- context [ST.fold_opt ?fk kids a1] =>
-    pose proof (sim_kids R_pf fk pf_kid kids) as Hks;
+    pose proof (sim_kids R_pf fk (pf_kid d) kids) as Hks;
     assert (Hstep : forall acc acc' T t, In t kids -> E T t -> R_pf acc acc' ->
-                                         sim R_pf (fk acc t) (pf_kid acc' T)) end.
-  { clear - Hfit Hlt. intros acc acc' T t Hin HE (H1 & H2 & H3 & H4 & H5). cbv beta.
-    pose proof (fits_kid _ _ _ _ _ _ Hfit Hin) as Hfk.
+                                         sim R_pf (fk acc t) (pf_kid d acc' T)) end.
+  { clear. intros acc acc' T t Hin HE (H1 & H2 & H3 & H4 & H5). cbv beta.
     kid_case t HE; try (repeat split; assumption).
     cbn [ST.kid_local pf_kid]. change (local_is (ns', l') ?x) with (String.eqb l' x).
     destruct (String.eqb l' "is-not-defined").
-    { unfold ST.into_flag. rewrite chk_ok by lia. repeat split; assumption. }
+    { flag_step. repeat split; assumption. }
     destruct (String.eqb l' "time-range").
     { unfold ST.into_ptr.
-      pose proof (sim_tr (d + 1) _ _ _ _ HE (fits_mono (d + 2) (d + 1) _ Hfk ltac:(lia))
+      pose proof (sim_tr (d + 1) _ _ _ _ HE
                          (R_opt_default R_tr _ _ _ _ R_tr_zero H3)) as Hs.
       destruct (ST.um_time_range _ _ _), (u_time_range _ _); cbn in Hs; try contradiction; [|exact Hs].
       split; [assumption | split; [assumption | split; [exact Hs | split; assumption]]]. }
     destruct (String.eqb l' "text-match").
     { unfold ST.into_ptr.
-      pose proof (sim_tm (d + 1) _ _ _ _ HE (fits_mono (d + 2) (d + 1) _ Hfk ltac:(lia))
+      pose proof (sim_tm (d + 1) _ _ _ _ HE
                          (R_opt_default R_tm _ _ _ _ R_tm_zero H4)) as Hs.
       destruct (ST.um_text_match _ _ _ _ _), (u_text_match _ _); cbn in Hs; try contradiction; [|exact Hs].
       split; [assumption | split; [assumption | split; [assumption | split; [exact Hs | assumption]]]]. }
     destruct (String.eqb l' "param-filter"); [|repeat split; assumption].
-    unfold ST.into_slice. rewrite chk_ok by lia.
-    pose proof (sim_paf (d + 2) _ _ _ _ HE Hfk R_paf_zero) as Hs.
+    unfold ST.into_slice. leb_case.
+    pose proof (sim_paf (d + 2) _ _ _ _ HE R_paf_zero) as Hs.
     destruct (ST.um_param_filter _ _ _ _ _), (u_param_filter _ _); cbn in Hs; try contradiction; [|exact Hs].
     split; [assumption | split; [assumption | split; [assumption | split; [assumption |]]]].
     cbn. now apply Forall2_snoc. }
   specialize (Hks Hstep k a1 a1' Hk Ha).
-  destruct (ST.fold_opt _ kids a1), (fold_res pf_kid k a1'); cbn in Hks; try contradiction; exact Hks.
+  destruct (ST.fold_opt _ kids a1), (fold_res (pf_kid d) k a1'); cbn in Hks; try contradiction; exact Hks.
 Qed.
 
 (** * Nested induction on ServerTotal's trees *)
@@ -480,16 +457,15 @@ Proof. constructor; [exact I | constructor | constructor]. Qed.
 
 (** comp-filter *)
 Lemma sim_cf t : forall d acc acc' T,
-  E T t -> fits d t -> R_cf acc acc' ->
-  sim R_cf (ST.um_comp_filter d acc t) (u_comp_filter acc' T).
+  E T t -> R_cf acc acc' ->
+  sim R_cf (ST.um_comp_filter d acc t) (u_comp_filter d acc' T).
 Proof.
-  induction t as [ns l attrs kids IH | s |] using stree_ind2; intros d acc acc' T HE Hfit HR;
+  induction t as [ns l attrs kids IH | s |] using stree_ind2; intros d acc acc' T HE HR;
     [ apply E_elem_inv in HE; destruct HE as (a & k & -> & Hd & Hk)
     | apply E_text_inv in HE; subst; reflexivity
     | apply E_other_inv in HE; subst; reflexivity ].
   rewrite u_comp_filter_eq. cbn [ST.um_comp_filter]. unfold ST.um_struct.
-  pose proof (fits_lt _ _ _ _ _ Hfit) as Hlt.
-  rewrite chk_ok by lia. rewrite name_ok_eq by reflexivity.
+  leb_case. rewrite name_ok_eq by reflexivity.
   change (ST.NS_CAL, "comp-filter") with (cn "comp-filter").
   destruct (name_eqb (ns, l) (cn "comp-filter")); cbn [negb]; [|reflexivity].
   match goal with |- context [ST.fold_opt ?fa attrs acc] =>
@@ -500,35 +476,34 @@ Proof.
   destruct (ST.fold_opt _ attrs acc) as [a1|], (fold_attrs wcf_set a acc') as [a1'| |]; cbn in Ha; try contradiction;
     [|exact Ha].
   match goal with |- context [ST.fold_opt ?fk kids a1] =>
-    pose proof (sim_kids R_cf fk cf_kid kids) as Hks;
+    pose proof (sim_kids R_cf fk (cf_kid d) kids) as Hks;
     assert (Hstep : forall acc acc' T t, In t kids -> E T t -> R_cf acc acc' ->
-                                         sim R_cf (fk acc t) (cf_kid acc' T)) end.
-  { clear - Hfit Hlt IH. intros acc acc' T t Hin HE HR. inversion HR as [n i tr tr' pfs pfs' cfs cfs' H3 H4 H5]; subst.
+                                         sim R_cf (fk acc t) (cf_kid d acc' T)) end.
+  { clear - IH. intros acc acc' T t Hin HE HR. inversion HR as [n i tr tr' pfs pfs' cfs cfs' H3 H4 H5]; subst.
     cbv beta.
-    pose proof (fits_kid _ _ _ _ _ _ Hfit Hin) as Hfk.
     kid_case t HE; try (constructor; assumption).
     cbn [ST.kid_local cf_kid]. change (local_is (ns', l') ?x) with (String.eqb l' x).
     destruct (String.eqb l' "is-not-defined").
-    { unfold ST.into_flag. rewrite chk_ok by lia. constructor; assumption. }
+    { flag_step. constructor; assumption. }
     destruct (String.eqb l' "time-range").
     { unfold ST.into_ptr.
-      pose proof (sim_tr (d + 1) _ _ _ _ HE (fits_mono (d + 2) (d + 1) _ Hfk ltac:(lia))
+      pose proof (sim_tr (d + 1) _ _ _ _ HE
                          (R_opt_default R_tr _ _ _ _ R_tr_zero H3)) as Hs.
       destruct (ST.um_time_range _ _ _), (u_time_range _ _); cbn in Hs; try contradiction; [|exact Hs].
       constructor; assumption. }
     destruct (String.eqb l' "prop-filter").
-    { unfold ST.into_slice. rewrite chk_ok by lia.
-      pose proof (sim_pf (d + 2) ST.cprop_filter_zero zero_wpf _ _ HE Hfk ltac:(repeat split; constructor)) as Hs.
+    { unfold ST.into_slice. leb_case.
+      pose proof (sim_pf (d + 2) ST.cprop_filter_zero zero_wpf _ _ HE ltac:(repeat split; constructor)) as Hs.
       destruct (ST.um_cprop_filter _ _ _), (u_prop_filter _ _); cbn in Hs; try contradiction; [|exact Hs].
       constructor; [assumption | now apply Forall2_snoc | assumption]. }
     destruct (String.eqb l' "comp-filter"); [|constructor; assumption].
-    rewrite chk_ok by lia.
+    leb_case.
     rewrite Forall_forall in IH.
-    pose proof (IH _ Hin (d + 2)%N _ _ _ HE Hfk R_cf_zero) as Hs.
+    pose proof (IH _ Hin (d + 2)%N _ _ _ HE R_cf_zero) as Hs.
     destruct (ST.um_comp_filter _ _ _), (u_comp_filter _ _); cbn in Hs; try contradiction; [|exact Hs].
     constructor; [assumption | assumption | now apply Forall2_snoc]. }
   specialize (Hks Hstep k a1 a1' Hk Ha).
-  destruct (ST.fold_opt _ kids a1), (fold_res cf_kid k a1'); cbn in Hks; try contradiction; exact Hks.
+  destruct (ST.fold_opt _ kids a1), (fold_res (cf_kid d) k a1'); cbn in Hks; try contradiction; exact Hks.
 Qed.
 
 Lemma fold_opt_no_attr {A} (acc : A) (attrs : list ST.xattr) : ST.fold_opt ST.no_attr attrs acc = Some acc.
@@ -536,46 +511,42 @@ Proof. induction attrs; cbn; auto. Qed.
 
 (** filter *)
 Lemma sim_filter d acc acc' T t :
-  E T t -> fits d t -> R_cf acc acc' -> sim R_cf (ST.um_cal_filter d acc t) (u_filter acc' T).
+  E T t -> R_cf acc acc' -> sim R_cf (ST.um_cal_filter d acc t) (u_filter d acc' T).
 Proof.
-  intros HE Hfit HR. elem_case t HE.
+  intros HE HR. elem_case t HE.
   unfold ST.um_cal_filter, ST.um_struct, u_filter.
-  pose proof (fits_lt _ _ _ _ _ Hfit) as Hlt.
-  rewrite chk_ok by lia. rewrite name_ok_eq by reflexivity.
+  leb_case. rewrite name_ok_eq by reflexivity.
   change (ST.NS_CAL, "filter") with (cn "filter").
   destruct (name_eqb (ns, l) (cn "filter")); cbn [negb]; [|reflexivity].
   rewrite fold_opt_no_attr.
   match goal with |- context [ST.fold_opt ?fk kids acc] =>
-    pose proof (sim_kids R_cf fk filter_kid kids) as Hks;
+    pose proof (sim_kids R_cf fk (filter_kid d) kids) as Hks;
     assert (Hstep : forall acc acc' T t, In t kids -> E T t -> R_cf acc acc' ->
-                                         sim R_cf (fk acc t) (filter_kid acc' T)) end.
-  { clear - Hfit Hlt. intros acc acc' T t Hin HE HR. cbv beta.
-    pose proof (fits_kid _ _ _ _ _ _ Hfit Hin) as Hfk.
+                                         sim R_cf (fk acc t) (filter_kid d acc' T)) end.
+  { clear. intros acc acc' T t Hin HE HR. cbv beta.
     kid_case t HE.
     cbn [ST.kid_local filter_kid]. change (local_is (ns', l') ?x) with (String.eqb l' x).
     destruct (String.eqb l' "comp-filter"); [|assumption].
-    apply sim_cf; [assumption | | assumption]. apply (fits_mono (d + 2)); [assumption | lia]. }
+    apply sim_cf; assumption. }
   specialize (Hks Hstep k acc acc' Hk HR).
-  destruct (ST.fold_opt _ kids acc), (fold_res filter_kid k acc'); cbn in Hks; try contradiction; exact Hks.
+  destruct (ST.fold_opt _ kids acc), (fold_res (filter_kid d) k acc'); cbn in Hks; try contradiction; exact Hks.
 Qed.
 
 (** prop of calendar-data *)
-Lemma sim_named d acc T t :
-  E T t -> fits d t ->
-  sim eq (ST.um_named ST.NS_CAL "prop" d acc t) (match T with Elem n a _ => if negb (name_eqb n (cn "prop")) then Err 400 else fold_attrs cprop_set a acc | _ => Err 400 end).
+Lemma sim_named d T t :
+  E T t -> sim eq (ST.um_named ST.NS_CAL "prop" d "" t) (u_cprop d T).
 Proof.
-  intros HE Hfit. elem_case t HE.
-  unfold ST.um_named, ST.um_struct.
-  pose proof (fits_lt _ _ _ _ _ Hfit) as Hlt.
-  rewrite chk_ok by lia. rewrite name_ok_eq by reflexivity.
+  intros HE. elem_case t HE.
+  unfold ST.um_named, ST.um_struct, u_cprop.
+  leb_case. rewrite name_ok_eq by reflexivity.
   change (ST.NS_CAL, "prop") with (cn "prop").
   destruct (name_eqb (ns, l) (cn "prop")); cbn [negb]; [|reflexivity].
-  match goal with |- context [ST.fold_opt ?fa attrs acc] =>
+  match goal with |- context [ST.fold_opt ?fa attrs ""] =>
     pose proof (sim_attrs eq fa cprop_set) as Ha end.
   specialize (Ha ltac:(
     intros x y z ->; unfold cprop_set; cbv beta;
-    destruct (String.eqb (ST.a_local z) "name"); reflexivity) a attrs acc acc Hd eq_refl).
-  destruct (ST.fold_opt _ attrs acc) as [a1|], (fold_attrs cprop_set a acc) as [a1'| |]; cbn in Ha; try contradiction;
+    destruct (String.eqb (ST.a_local z) "name"); reflexivity) a attrs "" "" Hd eq_refl).
+  destruct (ST.fold_opt _ attrs "") as [a1|], (fold_attrs cprop_set a "") as [a1'| |]; cbn in Ha; try contradiction;
     [|exact Ha].
   rewrite fold_opt_const. exact Ha.
 Qed.
@@ -585,16 +556,15 @@ Proof. constructor. constructor. Qed.
 
 (** comp *)
 Lemma sim_comp t : forall d acc acc' T,
-  E T t -> fits d t -> R_comp acc acc' ->
-  sim R_comp (ST.um_comp d acc t) (u_comp acc' T).
+  E T t -> R_comp acc acc' ->
+  sim R_comp (ST.um_comp d acc t) (u_comp d acc' T).
 Proof.
-  induction t as [ns l attrs kids IH | s |] using stree_ind2; intros d acc acc' T HE Hfit HR;
+  induction t as [ns l attrs kids IH | s |] using stree_ind2; intros d acc acc' T HE HR;
     [ apply E_elem_inv in HE; destruct HE as (a & k & -> & Hd & Hk)
     | apply E_text_inv in HE; subst; reflexivity
     | apply E_other_inv in HE; subst; reflexivity ].
   rewrite u_comp_eq. cbn [ST.um_comp]. unfold ST.um_struct.
-  pose proof (fits_lt _ _ _ _ _ Hfit) as Hlt.
-  rewrite chk_ok by lia. rewrite name_ok_eq by reflexivity.
+  leb_case. rewrite name_ok_eq by reflexivity.
   change (ST.NS_CAL, "comp") with (cn "comp").
   destruct (name_eqb (ns, l) (cn "comp")); cbn [negb]; [|reflexivity].
   match goal with |- context [ST.fold_opt ?fa attrs acc] =>
@@ -605,68 +575,63 @@ Proof.
   destruct (ST.fold_opt _ attrs acc) as [a1|], (fold_attrs wcomp_set a acc') as [a1'| |]; cbn in Ha; try contradiction;
     [|exact Ha].
   match goal with |- context [ST.fold_opt ?fk kids a1] =>
-    pose proof (sim_kids R_comp fk comp_kid kids) as Hks;
+    pose proof (sim_kids R_comp fk (comp_kid d) kids) as Hks;
     assert (Hstep : forall acc acc' T t, In t kids -> E T t -> R_comp acc acc' ->
-                                         sim R_comp (fk acc t) (comp_kid acc' T)) end.
-  { clear - Hfit Hlt IH. intros acc acc' T t Hin HE HR. inversion HR as [n ap ps ac cs cs' H5]; subst.
+                                         sim R_comp (fk acc t) (comp_kid d acc' T)) end.
+  { clear - IH. intros acc acc' T t Hin HE HR. inversion HR as [n ap ps ac cs cs' H5]; subst.
     cbv beta.
-    pose proof (fits_kid _ _ _ _ _ _ Hfit Hin) as Hfk.
     kid_case t HE; try (constructor; assumption).
     cbn [ST.kid_local comp_kid]. change (local_is (ns', l') ?x) with (String.eqb l' x).
     destruct (String.eqb l' "allprop").
-    { unfold ST.into_flag. rewrite chk_ok by lia. constructor; assumption. }
+    { flag_step. constructor; assumption. }
     destruct (String.eqb l' "prop").
-    { unfold ST.into_slice. rewrite chk_ok by lia.
-      pose proof (sim_named (d + 2) "" _ _ HE Hfk) as Hs. cbv beta iota in Hs.
-      unfold u_cprop.
-      destruct (ST.um_named _ _ _ _ _), (if negb (name_eqb (ns', l') (cn "prop")) then _ else _);
-        cbn in Hs; try contradiction; [|exact Hs].
+    { unfold ST.into_slice. leb_case.
+      pose proof (sim_named (d + 2) _ _ HE) as Hs.
+      destruct (ST.um_named _ _ _ _ _), (u_cprop _ _); cbn in Hs; try contradiction; [|exact Hs].
       subst. constructor; assumption. }
     destruct (String.eqb l' "allcomp").
-    { unfold ST.into_flag. rewrite chk_ok by lia. constructor; assumption. }
+    { flag_step. constructor; assumption. }
     destruct (String.eqb l' "comp"); [|constructor; assumption].
-    rewrite chk_ok by lia.
+    leb_case.
     rewrite Forall_forall in IH.
-    pose proof (IH _ Hin (d + 2)%N _ _ _ HE Hfk R_comp_zero) as Hs.
+    pose proof (IH _ Hin (d + 2)%N _ _ _ HE R_comp_zero) as Hs.
     destruct (ST.um_comp _ _ _), (u_comp _ _); cbn in Hs; try contradiction; [|exact Hs].
     constructor. now apply Forall2_snoc. }
   specialize (Hks Hstep k a1 a1' Hk Ha).
-  destruct (ST.fold_opt _ kids a1), (fold_res comp_kid k a1'); cbn in Hks; try contradiction; exact Hks.
+  destruct (ST.fold_opt _ kids a1), (fold_res (comp_kid d) k a1'); cbn in Hks; try contradiction; exact Hks.
 Qed.
 
 (** calendar-data *)
 Lemma sim_cd d acc acc' T t :
-  E T t -> fits d t -> R_cd acc acc' -> sim R_cd (ST.um_cal_data d acc t) (u_cal_data_req acc' T).
+  E T t -> R_cd acc acc' -> sim R_cd (ST.um_cal_data d acc t) (u_cal_data_req d acc' T).
 Proof.
-  intros HE Hfit HR. elem_case t HE.
+  intros HE HR. elem_case t HE.
   unfold ST.um_cal_data, ST.um_struct, u_cal_data_req.
-  pose proof (fits_lt _ _ _ _ _ Hfit) as Hlt.
-  rewrite chk_ok by lia. rewrite name_ok_eq by reflexivity.
+  leb_case. rewrite name_ok_eq by reflexivity.
   change (ST.NS_CAL, "calendar-data") with (cn "calendar-data").
   destruct (name_eqb (ns, l) (cn "calendar-data")); cbn [negb]; [|reflexivity].
   rewrite fold_opt_no_attr.
   match goal with |- context [ST.fold_opt ?fk kids acc] =>
-    pose proof (sim_kids R_cd fk wcd_kid kids) as Hks;
+    pose proof (sim_kids R_cd fk (wcd_kid d) kids) as Hks;
     assert (Hstep : forall acc acc' T t, In t kids -> E T t -> R_cd acc acc' ->
-                                         sim R_cd (fk acc t) (wcd_kid acc' T)) end.
-  { clear - Hfit Hlt. intros acc acc' T t Hin HE [H1 H2]. cbv beta.
-    pose proof (fits_kid _ _ _ _ _ _ Hfit Hin) as Hfk.
+                                         sim R_cd (fk acc t) (wcd_kid d acc' T)) end.
+  { clear. intros acc acc' T t Hin HE [H1 H2]. cbv beta.
     kid_case t HE; try (split; assumption).
     cbn [ST.kid_local wcd_kid]. change (local_is (ns', l') ?x) with (String.eqb l' x).
     destruct (String.eqb l' "comp").
     { unfold ST.into_ptr.
-      pose proof (sim_comp _ (d + 1)%N _ _ _ HE (fits_mono (d + 2) (d + 1) _ Hfk ltac:(lia))
+      pose proof (sim_comp _ (d + 1)%N _ _ _ HE
                            (R_opt_default R_comp _ _ _ _ R_comp_zero H1)) as Hs.
       destruct (ST.um_comp _ _ _), (u_comp _ _); cbn in Hs; try contradiction; [|exact Hs].
       split; [exact Hs | assumption]. }
     destruct (String.eqb l' "expand"); [|split; assumption].
     unfold ST.into_ptr.
-    pose proof (sim_ex (d + 1) _ _ _ _ HE (fits_mono (d + 2) (d + 1) _ Hfk ltac:(lia))
+    pose proof (sim_ex (d + 1) _ _ _ _ HE
                        (R_opt_default R_ex _ _ _ _ R_ex_zero H2)) as Hs.
     destruct (ST.um_expand _ _ _), (u_expand _ _); cbn in Hs; try contradiction; [|exact Hs].
     split; [assumption | exact Hs]. }
   specialize (Hks Hstep k acc acc' Hk HR).
-  destruct (ST.fold_opt _ kids acc), (fold_res wcd_kid k acc'); cbn in Hks; try contradiction; exact Hks.
+  destruct (ST.fold_opt _ kids acc), (fold_res (wcd_kid d) k acc'); cbn in Hks; try contradiction; exact Hks.
 Qed.
 
 (** * Raw property values *)
@@ -710,74 +675,60 @@ Proof.
   unfold E. intros H. rewrite strip_foreign_decls_comm, strip_foreign_idem, H. symmetry. apply tr_strip_decls.
 Qed.
 
-Lemma height_strip_decls t : height (ST.strip_decls t) = height t.
-Proof.
-  induction t as [ns l attrs kids IH | s |] using stree_ind2; try reflexivity.
-  cbn [ST.strip_decls height]. f_equal.
-  induction IH as [|x r Hx _ IHr]; [reflexivity |]. cbn [map fold_right]. now rewrite Hx, IHr.
-Qed.
-
-Definition R_raw (Hb : N) (r : ST.rawval) (T : xtree) : Prop :=
-  exists t, r = ST.RawTok t /\ E T t /\ (height t <= Hb)%N.
-Definition R_raws (Hb : N) : list ST.rawval -> list xtree -> Prop := Forall2 (R_raw Hb).
+Definition R_raw (r : ST.rawval) (T : xtree) : Prop :=
+  exists t, r = ST.RawTok t /\ E T t.
+Definition R_raws : list ST.rawval -> list xtree -> Prop := Forall2 R_raw.
 
 (** DAV:prop *)
-Lemma sim_raws Hb d acc acc' T t :
-  E T t -> fits d t -> (height t <= Hb)%N -> R_raws Hb acc acc' ->
-  sim (R_raws Hb) (ST.um_raws "prop" d acc t) (u_dprop acc' T).
+Lemma sim_raws d acc acc' T t :
+  E T t -> R_raws acc acc' ->
+  sim R_raws (ST.um_raws "prop" d acc t) (u_dprop d acc' T).
 Proof.
-  intros HE Hfit Hh HR. elem_case t HE.
+  intros HE HR. elem_case t HE.
   unfold ST.um_raws, ST.um_struct, u_dprop.
-  pose proof (fits_lt _ _ _ _ _ Hfit) as Hlt.
-  rewrite chk_ok by lia. rewrite name_ok_eq by reflexivity.
+  leb_case. rewrite name_ok_eq by reflexivity.
   change (ST.NS_DAV, "prop") with (dn "prop").
   destruct (name_eqb (ns, l) (dn "prop")); cbn [negb]; [|reflexivity].
   rewrite fold_opt_no_attr.
   match goal with |- context [ST.fold_opt ?fk kids acc] =>
-    pose proof (sim_kids (R_raws Hb) fk dprop_kid kids) as Hks;
-    assert (Hstep : forall acc acc' T t, In t kids -> E T t -> R_raws Hb acc acc' ->
-                                         sim (R_raws Hb) (fk acc t) (dprop_kid acc' T)) end.
-  { clear - Hfit Hlt Hh. intros acc acc' T t Hin HE HR. cbv beta.
-    pose proof (fits_kid _ _ _ _ _ _ Hfit Hin) as Hfk.
-    pose proof (height_kid ns l attrs kids _ Hin) as Hhk.
+    pose proof (sim_kids R_raws fk (dprop_kid d) kids) as Hks;
+    assert (Hstep : forall acc acc' T t, In t kids -> E T t -> R_raws acc acc' ->
+                                         sim R_raws (fk acc t) (dprop_kid d acc' T)) end.
+  { clear. intros acc acc' T t Hin HE HR. cbv beta.
     destruct t as [ns' l' attrs' kids' | s' |];
       [ | apply E_text_inv in HE; subst; exact HR | apply E_other_inv in HE; subst; exact HR ].
     pose proof HE as HE0. apply E_elem_inv in HE0. destruct HE0 as (a' & k' & -> & _ & _).
-    rewrite chk_ok by (apply fits_lt in Hfk; lia).
-    cbn [dprop_kid]. apply Forall2_snoc; [exact HR |].
-    eexists. split; [reflexivity |]. split; [now apply E_raw |].
-    rewrite height_strip_decls. lia. }
+    cbn [dprop_kid]. leb_case.
+    apply Forall2_snoc; [exact HR |].
+    eexists. split; [reflexivity |]. now apply E_raw. }
   specialize (Hks Hstep k acc acc' Hk HR). unfold w_prop in *.
-  destruct (ST.fold_opt _ kids acc), (fold_res dprop_kid k acc'); cbn in Hks; try contradiction; exact Hks.
+  destruct (ST.fold_opt _ kids acc), (fold_res (dprop_kid d) k acc'); cbn in Hks; try contradiction; exact Hks.
 Qed.
 
 (** calendar-query *)
-Definition R_cq (Hb : N) (x : ST.calQueryW) (y : w_calendar_query) : Prop :=
-  R_opt (R_raws Hb) (ST.s_prop (ST.cq_sel x)) (wq_prop y)
+Definition R_cq (x : ST.calQueryW) (y : w_calendar_query) : Prop :=
+  R_opt R_raws (ST.s_prop (ST.cq_sel x)) (wq_prop y)
   /\ ST.s_allprop (ST.cq_sel x) = wq_allprop y /\ ST.s_propname (ST.cq_sel x) = wq_propname y
   /\ R_cf (ST.cq_filter x) (wq_filter y).
 
-Lemma R_raws_nil Hb : R_raws Hb [] [].
+Lemma R_raws_nil : R_raws [] [].
 Proof. constructor. Qed.
 
-Lemma sim_cq Hb d acc acc' T t :
-  E T t -> fits d t -> (height t <= Hb)%N -> R_cq Hb acc acc' ->
-  sim (R_cq Hb) (ST.um_cal_query d acc t) (u_calendar_query acc' T).
+Lemma sim_cq d acc acc' T t :
+  E T t -> R_cq acc acc' ->
+  sim R_cq (ST.um_cal_query d acc t) (u_calendar_query d acc' T).
 Proof.
-  intros HE Hfit Hh HR. elem_case t HE.
+  intros HE HR. elem_case t HE.
   unfold ST.um_cal_query, ST.um_struct, u_calendar_query.
-  pose proof (fits_lt _ _ _ _ _ Hfit) as Hlt.
-  rewrite chk_ok by lia. rewrite name_ok_eq by reflexivity.
+  leb_case. rewrite name_ok_eq by reflexivity.
   change (ST.NS_CAL, "calendar-query") with (cn "calendar-query").
   destruct (name_eqb (ns, l) (cn "calendar-query")); cbn [negb]; [|reflexivity].
   rewrite fold_opt_no_attr.
   match goal with |- context [ST.fold_opt ?fk kids acc] =>
-    pose proof (sim_kids (R_cq Hb) fk wq_kid kids) as Hks;
-    assert (Hstep : forall acc acc' T t, In t kids -> E T t -> R_cq Hb acc acc' ->
-                                         sim (R_cq Hb) (fk acc t) (wq_kid acc' T)) end.
-  { clear - Hfit Hlt Hh. intros acc acc' T t Hin HE (H1 & H2 & H3 & H4). cbv beta.
-    pose proof (fits_kid _ _ _ _ _ _ Hfit Hin) as Hfk.
-    pose proof (height_kid ns l attrs kids _ Hin) as Hhk.
+    pose proof (sim_kids R_cq fk (wq_kid d) kids) as Hks;
+    assert (Hstep : forall acc acc' T t, In t kids -> E T t -> R_cq acc acc' ->
+                                         sim R_cq (fk acc t) (wq_kid d acc' T)) end.
+  { clear. intros acc acc' T t Hin HE (H1 & H2 & H3 & H4). cbv beta.
     unfold ST.um_sel.
     kid_case t HE; try (repeat split; assumption).
     cbn [ST.kid_is ST.kid_local wq_kid].
@@ -785,20 +736,20 @@ Proof.
     change (local_is (ns', l') ?x) with (String.eqb l' x).
     destruct (name_eqb (ns', l') (dn "prop")).
     { unfold ST.into_ptr.
-      pose proof (sim_raws Hb (d + 1) _ _ _ _ HE (fits_mono (d + 2) (d + 1) _ Hfk ltac:(lia)) ltac:(lia)
-                           (R_opt_default (R_raws Hb) _ _ _ _ (R_raws_nil Hb) H1)) as Hs.
+      pose proof (sim_raws (d + 1) _ _ _ _ HE
+                           (R_opt_default R_raws _ _ _ _ R_raws_nil H1)) as Hs.
       destruct (ST.um_raws _ _ _ _), (u_dprop _ _); cbn in Hs; try contradiction; [|exact Hs].
       split; [exact Hs | repeat split; assumption]. }
     destruct (name_eqb (ns', l') (dn "allprop")).
-    { unfold ST.into_flag. rewrite chk_ok by lia. repeat split; assumption. }
+    { flag_step. repeat split; assumption. }
     destruct (name_eqb (ns', l') (dn "propname")).
-    { unfold ST.into_flag. rewrite chk_ok by lia. repeat split; assumption. }
+    { flag_step. repeat split; assumption. }
     destruct (String.eqb l' "filter"); [|repeat split; assumption].
-    pose proof (sim_filter (d + 1) _ _ _ _ HE (fits_mono (d + 2) (d + 1) _ Hfk ltac:(lia)) H4) as Hs.
+    pose proof (sim_filter (d + 1) _ _ _ _ HE H4) as Hs.
     destruct (ST.um_cal_filter _ _ _), (u_filter _ _); cbn in Hs; try contradiction; [|exact Hs].
     repeat split; assumption. }
   specialize (Hks Hstep k acc acc' Hk HR).
-  destruct (ST.fold_opt _ kids acc), (fold_res wq_kid k acc'); cbn in Hks; try contradiction; exact Hks.
+  destruct (ST.fold_opt _ kids acc), (fold_res (wq_kid d) k acc'); cbn in Hks; try contradiction; exact Hks.
 Qed.
 
 Section Agree.
@@ -809,54 +760,50 @@ Variable url_ok : string -> bool.
 Hypothesis url_ok_spec : forall s, url_ok s = some_b (href_parse s).
 
 Definition R_href (s p : string) : Prop := href_parse s = Some p.
-Definition R_mg (Hb : N) (x : ST.multigetW) (y : w_multiget) : Prop :=
-  R_opt (R_raws Hb) (ST.s_prop (ST.mg_sel x)) (wm_prop y)
+Definition R_mg (x : ST.multigetW) (y : w_multiget) : Prop :=
+  R_opt R_raws (ST.s_prop (ST.mg_sel x)) (wm_prop y)
   /\ ST.s_allprop (ST.mg_sel x) = wm_allprop y /\ ST.s_propname (ST.mg_sel x) = wm_propname y
   /\ Forall2 R_href (ST.mg_hrefs x) (wm_hrefs y).
 
 (** calendar-multiget *)
-Lemma sim_mg Hb d acc acc' T t :
-  E T t -> fits d t -> (height t <= Hb)%N -> R_mg Hb acc acc' ->
-  sim (R_mg Hb) (ST.um_multiget ST.NS_CAL "calendar-multiget" url_ok d acc t) (u_multiget href_parse acc' T).
+Lemma sim_mg d acc acc' T t :
+  E T t -> R_mg acc acc' ->
+  sim R_mg (ST.um_multiget ST.NS_CAL "calendar-multiget" url_ok d acc t) (u_multiget href_parse d acc' T).
 Proof.
-  intros HE Hfit Hh HR. elem_case t HE.
+  intros HE HR. elem_case t HE.
   unfold ST.um_multiget, ST.um_struct, u_multiget.
-  pose proof (fits_lt _ _ _ _ _ Hfit) as Hlt.
-  rewrite chk_ok by lia. rewrite name_ok_eq by reflexivity.
+  leb_case. rewrite name_ok_eq by reflexivity.
   change (ST.NS_CAL, "calendar-multiget") with (cn "calendar-multiget").
   destruct (name_eqb (ns, l) (cn "calendar-multiget")); cbn [negb]; [|reflexivity].
   rewrite fold_opt_no_attr.
   match goal with |- context [ST.fold_opt ?fk kids acc] =>
-    pose proof (sim_kids (R_mg Hb) fk (wm_kid href_parse) kids) as Hks;
-    assert (Hstep : forall acc acc' T t, In t kids -> E T t -> R_mg Hb acc acc' ->
-                                         sim (R_mg Hb) (fk acc t) (wm_kid href_parse acc' T)) end.
-  { clear - Hfit Hlt Hh url_ok_spec. intros acc acc' T t Hin HE (H1 & H2 & H3 & H4). cbv beta.
-    pose proof (fits_kid _ _ _ _ _ _ Hfit Hin) as Hfk.
-    pose proof (height_kid ns l attrs kids _ Hin) as Hhk.
+    pose proof (sim_kids R_mg fk (wm_kid href_parse d) kids) as Hks;
+    assert (Hstep : forall acc acc' T t, In t kids -> E T t -> R_mg acc acc' ->
+                                         sim R_mg (fk acc t) (wm_kid href_parse d acc' T)) end.
+  { clear - url_ok_spec. intros acc acc' T t Hin HE (H1 & H2 & H3 & H4). cbv beta.
     unfold ST.um_sel.
     kid_case t HE; try (repeat split; assumption).
     cbn [ST.kid_is wm_kid].
     change (String.eqb ns' ST.NS_DAV && String.eqb l' ?x) with (name_eqb (ns', l') (dn x)).
     destruct (name_eqb (ns', l') (dn "prop")).
     { unfold ST.into_ptr.
-      pose proof (sim_raws Hb (d + 1) _ _ _ _ HE (fits_mono (d + 2) (d + 1) _ Hfk ltac:(lia)) ltac:(lia)
-                           (R_opt_default (R_raws Hb) _ _ _ _ (R_raws_nil Hb) H1)) as Hs.
+      pose proof (sim_raws (d + 1) _ _ _ _ HE
+                           (R_opt_default R_raws _ _ _ _ R_raws_nil H1)) as Hs.
       destruct (ST.um_raws _ _ _ _), (u_dprop _ _); cbn in Hs; try contradiction; [|exact Hs].
       split; [exact Hs | repeat split; assumption]. }
     destruct (name_eqb (ns', l') (dn "allprop")).
-    { unfold ST.into_flag. rewrite chk_ok by lia. repeat split; assumption. }
+    { flag_step. repeat split; assumption. }
     destruct (name_eqb (ns', l') (dn "propname")).
-    { unfold ST.into_flag. rewrite chk_ok by lia. repeat split; assumption. }
+    { flag_step. repeat split; assumption. }
     destruct (name_eqb (ns', l') (dn "href")); [|repeat split; assumption].
-    unfold ST.into_slice, ST.um_href, u_href. rewrite chk_ok by lia.
-    rewrite chk_ok by (apply fits_lt in Hfk; lia).
+    unfold ST.into_slice, ST.um_href, u_href. leb_case. leb_case.
     apply E_elem_inv in HE. destruct HE as (a2 & k2 & Heq & _ & Hk2). inversion Heq; subst a2 k2.
     rewrite (E_chardata _ _ Hk2). rewrite url_ok_spec.
     destruct (href_parse (ST.chardata kids')) as [p|] eqn:Ep; cbn [some_b]; [|reflexivity].
     split; [assumption | split; [assumption | split; [assumption |]]].
     cbn. apply Forall2_snoc; [assumption | exact Ep]. }
   specialize (Hks Hstep k acc acc' Hk HR).
-  destruct (ST.fold_opt _ kids acc), (fold_res (wm_kid href_parse) k acc'); cbn in Hks; try contradiction; exact Hks.
+  destruct (ST.fold_opt _ kids acc), (fold_res (wm_kid href_parse d) k acc'); cbn in Hks; try contradiction; exact Hks.
 Qed.
 
 (** * The decoders of caldav/server.go: ServerTotal keeps "decoded / 400",
@@ -969,18 +916,18 @@ Lemma R_cd_zero : R_cd ST.cal_data_zero zero_wcd.
 Proof. split; exact I. Qed.
 
 (** Prop.Decode(&calendarData) + decodeCalendarDataReq *)
-Lemma D_caldata Hb sel p :
-  (2 * Hb <= ST.MAXD)%N -> R_opt (R_raws Hb) (ST.s_prop sel) p ->
+Lemma D_caldata sel p :
+  R_opt R_raws (ST.s_prop sel) p ->
   match ST.cal_data_of_prop sel with
   | Ok b => dsim b (decode_prop_caldata p)
   | _ => False
   end.
 Proof.
-  intros HHb HR. unfold ST.cal_data_of_prop, decode_prop_caldata.
+  intros HR. unfold ST.cal_data_of_prop, decode_prop_caldata.
   destruct (ST.s_prop sel) as [raws|], p as [raws'|]; cbn in HR; try contradiction; [|eexists; reflexivity].
   induction HR as [|r T raws raws' Hr _ IH].
   - cbn. pose proof (D_cd _ _ R_cd_zero) as Hd. exact Hd.
-  - destruct Hr as (t & -> & HE & Hh). cbn [ST.prop_get find ST.raw_name_is].
+  - destruct Hr as (t & -> & HE). cbn [ST.prop_get find ST.raw_name_is].
     assert (Hn : is_caldata T = ST.kid_is t ST.NS_CAL "calendar-data").
     { destruct t as [ns l attrs kids | s |].
       - apply E_elem_inv in HE. destruct HE as (a & k & -> & _). reflexivity.
@@ -988,8 +935,8 @@ Proof.
       - apply E_other_inv in HE. now subst. }
     rewrite Hn. destruct (ST.kid_is t ST.NS_CAL "calendar-data"); [|exact IH].
     cbn [ST.raw_token_reader bind].
-    pose proof (sim_cd 0 _ _ _ _ HE ltac:(unfold fits; lia) R_cd_zero) as Hs.
-    destruct (ST.um_cal_data 0 ST.cal_data_zero t), (u_cal_data_req zero_wcd T); cbn in Hs; try contradiction.
+    pose proof (sim_cd 0 _ _ _ _ HE R_cd_zero) as Hs.
+    destruct (ST.um_cal_data 0 ST.cal_data_zero t), (u_cal_data_req 0 zero_wcd T); cbn in Hs; try contradiction.
     + now apply D_cd.
     + reflexivity.
 Qed.
@@ -1003,13 +950,6 @@ Proof.
     change (a_space (tra x)) with (ST.a_ns x).
     destruct (str_empty (ST.a_ns x)); cbn [map]; now rewrite IHr.
   - rewrite !map_map. induction IH as [|x r Hx _ IHr]; [reflexivity |]. cbn [map]. now rewrite Hx, IHr.
-Qed.
-
-Lemma height_drop_qualified t : height (ST.drop_qualified t) = height t.
-Proof.
-  induction t as [ns l attrs kids IH | s |] using stree_ind2; try reflexivity.
-  cbn [ST.drop_qualified height]. f_equal.
-  induction IH as [|x r Hx _ IHr]; [reflexivity |]. cbn [map fold_right]. now rewrite Hx, IHr.
 Qed.
 
 (** what ServerTotal's REPORT handler does with a body tree, up to the backend *)
@@ -1032,13 +972,12 @@ Definition st_classify (t : ST.xtree) : st_class :=
   | None => StBad
   end.
 
-Lemma R_cq_zero Hb : R_cq Hb ST.cal_query_zero zero_wq.
+Lemma R_cq_zero : R_cq ST.cal_query_zero zero_wq.
 Proof. split; [exact I | split; [reflexivity | split; [reflexivity | apply R_cf_zero]]]. Qed.
-Lemma R_mg_zero Hb : R_mg Hb ST.multiget_zero zero_wm.
+Lemma R_mg_zero : R_mg ST.multiget_zero zero_wm.
 Proof. split; [exact I | split; [reflexivity | split; [reflexivity | constructor]]]. Qed.
 
 Theorem models_agree path t :
-  (2 * height t <= ST.MAXD)%N ->
   match handle_report href_parse path (tr t), st_classify t with
   | Ok (BQuery p q), StQuery qw =>
     p = path /\ exists w, R_cf (ST.cq_filter qw) w /\ decode_comp_filter w = Ok (q_cf q)
@@ -1047,21 +986,19 @@ Theorem models_agree path t :
   | _, _ => False
   end.
 Proof.
-  intros Hh. unfold st_classify, ST.um_cal_report. rewrite chk_ok by (unfold ST.MAXD; lia).
+  unfold st_classify, ST.um_cal_report. rewrite chk0.
   destruct t as [ns l attrs kids | s |]; [|reflexivity | reflexivity].
   cbn [tr handle_report ST.kid_is].
   change (String.eqb ns ST.NS_CAL && String.eqb l ?x) with (name_eqb (ns, l) (cn x)).
   set (t := ST.XElem ns l attrs kids) in *.
   assert (HE : E (tr t) (ST.drop_qualified t)) by apply tr_drop_qualified.
-  assert (Hfit : fits 0 (ST.drop_qualified t)) by (unfold fits; rewrite height_drop_qualified; lia).
-  assert (Hhb : (height (ST.drop_qualified t) <= height t)%N) by (rewrite height_drop_qualified; lia).
   change (Elem (ns, l) (map tra attrs) (map tr kids)) with (tr t).
   destruct (name_eqb (ns, l) (cn "calendar-query")).
-  - pose proof (sim_cq (height t) 0 _ _ _ _ HE Hfit Hhb (R_cq_zero _)) as Hs.
+  - pose proof (sim_cq 0 _ _ _ _ HE R_cq_zero) as Hs.
     destruct (ST.um_cal_query 0 ST.cal_query_zero (ST.drop_qualified t)) as [qw|],
-             (u_calendar_query zero_wq (tr t)) as [q'| |]; cbn in Hs; try contradiction; [|exact Hs].
+             (u_calendar_query 0 zero_wq (tr t)) as [q'| |]; cbn in Hs; try contradiction; [|exact Hs].
     destruct Hs as (H1 & H2 & H3 & H4). unfold handle_query.
-    pose proof (D_caldata (height t) (ST.cq_sel qw) _ Hh H1) as Hc.
+    pose proof (D_caldata (ST.cq_sel qw) _ H1) as Hc.
     destruct (ST.cal_data_of_prop (ST.cq_sel qw)) as [b| |]; try contradiction.
     unfold dsim in Hc. destruct b.
     + destruct Hc as (cr & ->). pose proof (D_cf _ _ H4) as Hf. unfold dsim in Hf.
@@ -1070,11 +1007,11 @@ Proof.
       * rewrite Hf. reflexivity.
     + rewrite Hc. reflexivity.
   - destruct (name_eqb (ns, l) (cn "calendar-multiget")); [|reflexivity].
-    pose proof (sim_mg (height t) 0 _ _ _ _ HE Hfit Hhb (R_mg_zero _)) as Hs.
+    pose proof (sim_mg 0 _ _ _ _ HE R_mg_zero) as Hs.
     destruct (ST.um_multiget ST.NS_CAL "calendar-multiget" url_ok 0 ST.multiget_zero (ST.drop_qualified t)) as [mw|],
-             (u_multiget href_parse zero_wm (tr t)) as [m'| |]; cbn in Hs; try contradiction; [|exact Hs].
+             (u_multiget href_parse 0 zero_wm (tr t)) as [m'| |]; cbn in Hs; try contradiction; [|exact Hs].
     destruct Hs as (H1 & H2 & H3 & H4). unfold handle_multiget.
-    pose proof (D_caldata (height t) (ST.mg_sel mw) _ Hh H1) as Hc.
+    pose proof (D_caldata (ST.mg_sel mw) _ H1) as Hc.
     destruct (ST.cal_data_of_prop (ST.mg_sel mw)) as [b| |]; try contradiction.
     unfold dsim in Hc. destruct b.
     + destruct Hc as (cr & ->). exact H4.
@@ -1105,34 +1042,10 @@ Qed.
 
 End Agree.
 
-(** * Where the models differ: encoding/xml's nesting limit
-    [n + 1] comp-filters nested in each other inside filter inside calendar-query. *)
-Fixpoint deep_cf (n : nat) : ST.xtree :=
-  ST.XElem ST.NS_CAL "comp-filter" [ {| ST.a_ns := ""; ST.a_local := "name"; ST.a_val := "A" |} ]
-           (match n with O => [] | S n' => [deep_cf n'] end).
-Definition deep_doc (n : nat) : ST.xtree :=
-  ST.XElem ST.NS_CAL "calendar-query" [] [ST.XElem ST.NS_CAL "filter" [] [deep_cf n]].
-
-Definition cw_reaches_backend (t : ST.xtree) : bool :=
-  match handle_report (fun s => Some s) "/cal/" (tr t) with Ok (BQuery _ _) => true | _ => false end.
-Definition st_reaches_backend (t : ST.xtree) : bool :=
-  match st_classify (fun _ => true) t with StQuery _ => true | _ => false end.
-Definition st_answers_400 (t : ST.xtree) : bool :=
-  match st_classify (fun _ => true) t with StBad => true | _ => false end.
-
-(** 4999 nested comp-filters: both models hand the query to the backend;
-    5000: CalWire still does, ServerTotal answers 400 (and so does the real
-    caldav.Handler: errUnmarshalDepth, see notes/C08.md). *)
-Theorem models_differ_beyond_depth_limit :
-  cw_reaches_backend (deep_doc (N.to_nat 4998)) = true /\ st_reaches_backend (deep_doc (N.to_nat 4998)) = true
-  /\ cw_reaches_backend (deep_doc (N.to_nat 4999)) = true /\ st_answers_400 (deep_doc (N.to_nat 4999)) = true.
-Proof. vm_compute. repeat split. Qed.
-
 (** * The agreement, stated on ServerTotal's handler itself *)
 Theorem agrees_with_cal_handle_report (href_parse : string -> option string) env r t path :
   ST.is_content_xml r = true -> ST.r_xml r = ST.XTree t ->
   (forall s, ST.r_url_ok r s = some_b (href_parse s)) ->
-  (2 * height t <= ST.MAXD)%N ->
   match handle_report href_parse path (tr t) with
   | Err c =>
     c = 400%N /\ ST.cal_handle_report env r = ST.bad_request
@@ -1151,8 +1064,8 @@ Theorem agrees_with_cal_handle_report (href_parse : string -> option string) env
   | Panic => False
   end.
 Proof.
-  intros Hx Ht Hu Hh.
-  pose proof (models_agree href_parse (ST.r_url_ok r) Hu path t Hh) as Ha.
+  intros Hx Ht Hu.
+  pose proof (models_agree href_parse (ST.r_url_ok r) Hu path t) as Ha.
   pose proof (st_handle_report (ST.r_url_ok r) env r t Hx Ht eq_refl) as Hs.
   destruct (handle_report href_parse path (tr t)) as [[p q|ps cr]|c|], (st_classify (ST.r_url_ok r) t) as [qw|mw| |];
     try contradiction.
